@@ -495,6 +495,56 @@ theorem moveDim_fails : ¬ moveDim_statement := by
   intro h
   exact moveDim_min_fails (fun bargs prog path prog' hp _ I e => h bargs prog path prog' hp I e)
 
+/-- the model's dim move (a local rewrite below the dim) IS what the pattern does on the whole function
+(`dim_op.results[0].replace_all_uses_with(new)` + erase), for the two size kinds that are rewritten in place: a static /
+constant size and an existing dim that is not moved. (For a dim of an argument the pattern itself works locally: it
+creates the new dim in front of the loop.) -/
+theorem moveDim_eq_replaceAllUses (k : Bool) (bargs : List Var) (prog : Blk) (path : List Nat) (q : Blk)
+    (d : Var) (idx : Nat) (s : Var) (rest : Blk)
+    (hget : getAt prog path = some (.pure d (.dim idx) [.var s] rest))
+    (h : moveDim k bargs prog path = .ok q) :
+    (∀ c, dimSrcAt bargs prog path = some (.const c) → applyAt removeStmt (subst d (.cst c) prog) path = .ok q)
+    ∧ (∀ w, dimSrcAt bargs prog path = some (.existing w false) →
+        applyAt removeStmt (subst d (.var w) prog) path = .ok q) := by
+  unfold moveDim at h
+  simp only [hget] at h
+  split at h
+  · simp at h
+  next facts here hctx =>
+    split at h
+    · simp at h
+    split at h
+    · simp at h
+    split at h
+    · simp at h
+    next r hr =>
+      have hsrc : dimSrcAt bargs prog path = some r := by
+        simp only [dimSrcAt, hget, hctx, hr]
+      split at h
+      · simp at h
+      next hcnt =>
+        simp only [ne_eq, Decidable.not_not] at hcnt
+        constructor
+        · intro c hc
+          rw [hsrc] at hc
+          simp only [Option.some.injEq] at hc
+          subst hc
+          exact replaceAllUses_global_eq_local d idx s (.cst c) prog path q rest hget hcnt h
+        · intro w hw
+          rw [hsrc] at hw
+          simp only [Option.some.injEq] at hw
+          subst hw
+          simp only [Bool.false_and, Bool.false_eq_true, if_false] at h
+          exact replaceAllUses_global_eq_local d idx s (.var w) prog path q rest hget hcnt h
+
+/-- the closed-form trip count of the trace semantics is the while loop `i = lb; while i < ub { …; i += st }`:
+same iteration values in the same order, for every positive step and every fuel ≥ the trip count (so the loop has exited) -/
+theorem iters_operational (lb ub st : Int) (hst : 0 < st) (fuel : Nat) (h : tripCount lb ub st ≤ fuel) :
+    iters lb ub st = whileIters ub st fuel lb :=
+  iters_eq_whileIters ub st hst fuel lb h
+
+example : iters 2 11 3 = [2, 5, 8] ∧ whileIters 11 3 7 2 = [2, 5, 8] := by decide
+
 /-! ## Whole passes: closed under arbitrary rewrite sequences
 
 Whatever order, positions and number of rewrites the greedy driver chooses — in particular iterated merges of nests of
